@@ -128,12 +128,16 @@ TIterBulk ==
     /\ viol' = viol \cup V(E.write_ok => (E.yielded = E.n /\ E.saw_deleted /\ ~E.saw_new /\ E.ordered), "IterSnapshotBulk")
     /\ UNCHANGED <<kv, its>>
 
-TNext == TIterBulk \/ TRace \/ TReset \/ TCommit \/ TGet \/ TDel \/ TIterOpen \/ TIterNext \/ TIterDrain \/ TDelCur
+\* a lookup that ran next to the two commits panicked or returned a value the key never had
+TRaceRead == /\ Is("SRaceRead") /\ l' = l + 1 /\ viol' = viol \cup V(FALSE, "ReadsDuringBatches") /\ UNCHANGED <<kv, its>>
+
+TNext == TRaceRead \/ TIterBulk \/ TRace \/ TReset \/ TCommit \/ TGet \/ TDel \/ TIterOpen \/ TIterNext \/ TIterDrain \/ TDelCur
 TSpec == TInit /\ [][TNext]_vars
 TraceAccepted == TLCGet("stats").diameter - 1 = Len(Trace)
 NoViol(name) == \A v \in viol : v[1] # name
 M_ConditionExactly   == NoViol("ConditionExactly")
 M_BatchesSerializable == NoViol("BatchesSerializable")
+M_ReadsDuringBatches == NoViol("ReadsDuringBatches")
 M_IterSnapshotBulk == NoViol("IterSnapshotBulk")
 M_GetReturnsStored   == NoViol("GetReturnsStored")
 M_DelUnconditional   == NoViol("DelUnconditional")
